@@ -4,6 +4,7 @@ import Hpl.Model.Build
 import Hpl.Model.BuildProp
 import Hpl.Spec.Eval
 import Hpl.Model.Schema
+import Hpl.Model.Json
 /-! Wire codec: AST values <-> S-expressions (DESIGN Appendix D). Driver-side only. -/
 namespace Hpl
 namespace Codec
@@ -267,6 +268,15 @@ def decVarTypes : Sexp → Option VarTypes
       | .list [.str n, t] => do pure (n, ← decTok t)
       | _ => none)
   | _ => none
+
+partial def encJson : Json → Sexp
+  | .null => .list [.atom "null"]
+  | .bool b => .list [.atom "b", ofBool b]
+  | .int n => .list [.atom "i", ofInt n]
+  | .num q => .list (.atom "f" :: encRat q)
+  | .str s => .list [.atom "s", .str s]
+  | .arr xs => .list (.atom "arr" :: xs.map encJson)
+  | .obj kvs => .list (.atom "obj" :: kvs.map (fun kv => .list [.str kv.1, encJson kv.2]))
 
 def encErr (e : Err) : Sexp :=
   match e with
